@@ -1,5 +1,6 @@
 import Cpppo.Proofs.Rx
 import Cpppo.Proofs.Regex
+import Cpppo.Proofs.Bisim
 
 /-!
 # C11 — Regular-expression machines accept exactly the expression's language
@@ -15,6 +16,9 @@ standard semantics (Mathlib `Language`; `Rx.matches'_toRE` ties it to `RegularEx
 * `live_iff_extendable` / `live_iff_extendable_cert` — cpppo's local dead-state test is exact.
 * `regex_machine_correct` — the machine equals the specification run `specRun r` of the expression;
   `specRun_spec` says what that is in terms of `r.lang`; `rmatch_iff_matches'` is the Mathlib tie.
+* `regex_machine_correct_cert` — the same with the hypothesis on the languages replaced by a decidable
+  bisimulation certificate (`isBisim`, sound by `isBisim_sound`); `greenery_fsm_witness`: greenery's fsm
+  for `(aa+)?` is wrong (known finding).
 * `rx_chunk_independent` — chunking is irrelevant (no empty chunk; an empty chunk ends the run).
 * `utf8_simulation_partial` — byte machines: on the UTF-8 encoding of a text whose characters are named
   by the alphabet or are single bytes, exactly the encoding of what the character machine consumes is
@@ -192,6 +196,33 @@ theorem regex_machine_correct (r : Rx) (F : Fsm) (hwf : F.wf = true) (hc : F.cer
     simp only [ha, Bool.false_eq_true, if_false]
     cases o <;> simp_all
 
+/-- **The same under decidable hypotheses only**: `isBisim F r R` (a bisimulation certificate between
+the fsm and the iterated simplified derivatives of `r`, found by the driver's search and checked by the
+verified `isBisim`) replaces the hypothesis on the languages.  This is what the correspondence evaluates
+for every expression of the exhaustive scopes (`rx.lang … 1` answers `ok` only then). -/
+theorem regex_machine_correct_cert (r : Rx) (F : Fsm) (hwf : F.wf = true) (hc : F.certLive = true)
+    (R : List (Nat × Rx)) (hb : isBisim F r R = true) (w : List Sym) :
+    rxRun F false .fixed w =
+      ⟨if (r.specRun w).accepted then .ok else .nonTerminal, (r.specRun w).consumed⟩ :=
+  regex_machine_correct r F hwf hc (isBisim_sound F r R hb) w
+
+/-- a certificate shows that the fsm's language is the expression's -/
+theorem fsm_lang_eq_of_bisim (r : Rx) (F : Fsm) (R : List (Nat × Rx)) (hb : isBisim F r R = true) :
+    F.lang = r.lang := by
+  ext v; rw [F.mem_lang, isBisim_sound F r R hb, Rx.rmatch_iff]
+
+/-- **Known finding (greenery 2.1)**: for `(aa+)?` greenery builds the fsm of `a*` (its simplification
+merges the multipliers `{2,}` and `?` into `*`), which accepts `a`; the expression does not. -/
+def fsmAStar : Fsm :=
+  { init := 0, finals := [0], map := [(0, [(none, 1), (some 97, 0)]), (1, [(none, 1), (some 97, 1)])] }
+
+theorem greenery_fsm_witness :
+    fsmAStar.accepts [97] = true ∧
+    (Rx.opt (.cat (.lit 97) (Rx.plus (.lit 97)))).rmatch [97] = false ∧
+    rxRun fsmAStar false .fixed [97] = ⟨.ok, [97]⟩ ∧
+    (Rx.opt (.cat (.lit 97) (Rx.plus (.lit 97)))).specRun [97] = ⟨[97], false⟩ := by
+  refine ⟨?_, ?_, ?_, ?_⟩ <;> decide +kernel
+
 /-! ### chunking -/
 
 /-- **The result does not depend on how the input is chunked** (characters or bytes, either code). -/
@@ -273,6 +304,12 @@ example : rxRun fsmAB false .fixed [98] = ⟨.nonTerminal, []⟩ := by decide +k
 example : (Rx.cat (.lit 97) (.star (.lit 98))).specRun [97, 98, 98, 99] = ⟨[97, 98, 98], true⟩ := by
   decide +kernel
 example : rxRunChunks fsmAB false .fixed [[97], [98, 98], [99]] = ⟨.ok, [97, 98, 98]⟩ := by decide +kernel
+/-- the certificate search finds a bisimulation for `ab*` and the checker accepts it -/
+example : isBisim fsmAB (.cat (.lit 97) (.star (.lit 98))) (explore fsmAB (.cat (.lit 97) (.star (.lit 98))) 50)
+    = true := by decide +kernel
+/-- … and no certificate exists for greenery's fsm of `(aa+)?` -/
+example : isBisim fsmAStar (Rx.opt (.cat (.lit 97) (Rx.plus (.lit 97))))
+    (explore fsmAStar (Rx.opt (.cat (.lit 97) (Rx.plus (.lit 97)))) 50) = false := by decide +kernel
 /-- the hypotheses of `utf8_simulation_partial` hold for `é.` on the text `éa` -/
 example : fsmEDot.wf = true ∧ refused fsmEDot true = false ∧
     (∀ x ∈ [233, 97], x < 128 ∨ fsmEDot.named x = true) := by decide +kernel
